@@ -57,11 +57,16 @@ def assign_canonical_labels(m: nx.Graph) -> dict[int, int]:
     """
 
     m_igraph = iGraph.from_networkx(m)
-    old_labels = m_igraph.vs["_nx_name"]
     partitions = m_igraph.vs[PARTITION]
-    canonical_labels = m_igraph.canonical_permutation(color=partitions)
+    permutation = m_igraph.canonical_permutation(color=partitions)
+    # Let igraph apply its own permutation instead of interpreting the vector:
+    # its index convention (old -> new vs. new -> old) differs between igraph
+    # releases, while permute_vertices() always yields the canonical form.
+    old_labels_in_canonical_order = m_igraph.permute_vertices(permutation).vs[
+        "_nx_name"
+    ]
 
-    return dict(zip(old_labels, canonical_labels))
+    return {old: new for new, old in enumerate(old_labels_in_canonical_order)}
 
 
 def canonicalize_molecule(m: nx.Graph) -> nx.Graph:
